@@ -120,6 +120,8 @@ def run(ctx):
                 else:
                     want_here = want
                 got = canon(v.a)
+                from ..engines.layout import subst_term
+                want_here = subst_term(want_here, env)       # equalities established on this path (`if newdom == self.domain:`)
                 ctx.ob('result-domain', fi, s, got == canon(want_here),
                        'returns a factor over %s; the contract is %s' % (show(v.a), show(want_here)))
         if name == 'project':
